@@ -413,6 +413,82 @@ func (x *Exec) loopModifiedRegions(fr *Frame, L *Loop) (map[string]Sort, bool) {
 	return regs, all
 }
 
+// untouchedAllocs: Alloc instructions outside loop L whose storage the loop body can only read. An allocation counts
+// as touched as soon as any value derived from it (field/element addresses, slices of it, type changes) is used inside
+// the loop by anything other than a load, a further derivation, len/cap, or a call known not to write through its
+// arguments (bytes.Equal, bytes.Compare).
+func untouchedAllocs(fr *Frame, L *Loop) []*ssa.Alloc {
+	var out []*ssa.Alloc
+	for _, b := range fr.Fn.Blocks {
+		if L.Blocks[b] {
+			continue
+		}
+		for _, ins := range b.Instrs {
+			a, ok := ins.(*ssa.Alloc)
+			if !ok {
+				continue
+			}
+			derived := map[ssa.Value]bool{a: true}
+			work := []ssa.Value{a}
+			touched := false
+			for len(work) > 0 && !touched {
+				v := work[len(work)-1]
+				work = work[:len(work)-1]
+				refs := v.Referrers()
+				if refs == nil {
+					touched = true
+					break
+				}
+				for _, r := range *refs {
+					inLoop := L.Blocks[r.Block()]
+					switch r := r.(type) {
+					case *ssa.FieldAddr, *ssa.IndexAddr, *ssa.Slice, *ssa.ChangeType:
+						rv := r.(ssa.Value)
+						if !derived[rv] {
+							derived[rv] = true
+							work = append(work, rv)
+						}
+					case *ssa.UnOp:
+						// load
+					case *ssa.DebugRef:
+					case *ssa.Store:
+						if r.Val == v {
+							touched = true // the address itself is stored somewhere: it escapes
+						} else if inLoop {
+							touched = true
+						}
+					case ssa.CallInstruction:
+						// (a call outside the loop counts too: the callee may keep the address and write through it later)
+						c := r.Common()
+						if bi, ok := c.Value.(*ssa.Builtin); ok && (bi.Name() == "len" || bi.Name() == "cap") {
+							continue
+						}
+						if f, ok := c.Value.(*ssa.Function); ok && (f.String() == "bytes.Equal" || f.String() == "bytes.Compare") {
+							continue
+						}
+						touched = true
+					default:
+						if inLoop {
+							touched = true
+						} else if _, isPhi := r.(*ssa.Phi); isPhi {
+							touched = true
+						} else if _, isMI := r.(*ssa.MakeInterface); isMI {
+							touched = true // ... unless the address escaped into an interface
+						}
+					}
+					if touched {
+						break
+					}
+				}
+			}
+			if !touched {
+				out = append(out, a)
+			}
+		}
+	}
+	return out
+}
+
 // staticTypeOf: Go type of a contract location expression built from parameters, field selections and derefs.
 func staticTypeOf(fn *ssa.Function, e ast.Expr) types.Type {
 	switch e := e.(type) {
@@ -524,6 +600,12 @@ func (x *Exec) execLoopInvariant(fr *Frame, L *Loop, in []Edge, lc *LoopContract
 	}
 	mkEnv := func(st *State) *EvalEnv {
 		env := x.newEnv(fr.Fn, fr, nil, fr.Args, st, fr.Pre)
+		if fr.Depth == 0 {
+			// ghost variables and entry-state lets of the function under verification
+			for k, v := range x.topGhosts {
+				env.Vars[k] = v
+			}
+		}
 		for _, phi := range phis {
 			if phi.Comment != "" {
 				env.Vars[phi.Comment] = fr.Env[phi]
@@ -580,6 +662,20 @@ func (x *Exec) execLoopInvariant(fr *Frame, L *Loop, in []Edge, lc *LoopContract
 					x.C.Assume(Eq(t, k.t), "stable package variable keeps its value across loop iterations")
 				}
 			}
+		}
+		// address-taken locals allocated before the loop that the loop body only reads keep their content
+		for _, a := range untouchedAllocs(fr, L) {
+			pv, ok := fr.Env[a].(PtrV)
+			if !ok || len(pv.Path) != 0 {
+				continue
+			}
+			srt, touched := regs[pv.Region]
+			if !touched {
+				continue
+			}
+			before := x.heapGet(st0, pv.Region, srt)
+			after := x.heapGet(stH, pv.Region, srt)
+			x.C.Assume(Eq(Select(after, pv.Base), Select(before, pv.Base)), "local "+a.Comment+" is not written in the loop")
 		}
 		nb := x.C.Fresh("brk", SRef)
 		x.C.Assume(bvCmp("bvuge", nb, stH.Brk), "allocator monotone across loop iterations")
